@@ -360,6 +360,8 @@ def refusal_cases(kind):
     """whatever status the target refuses the extended Forward Open with, the driver falls back to the standard one"""
     from ..refplc import CM_EXT_CODES
     refs = [[0x01, [c]] for c in CM_EXT_CODES] + [[0x01, []], [0x02, []], [0x05, []], [0x08, []], [0x09, []], [0x13, []], [0x26, []], [0xFF, [0x2105]], [0x01, [0x0109, 0x01F4]]]
+    # every general status byte, tabled in the library's status texts or not
+    refs += [[g, []] for g in range(1, 256) if [g, []] not in refs and (kind == "cip" or g % 5 == 0 or g in (0x17, 0x18, 0x19, 0x20, 0x21, 0x23, 0x24, 0x2A))]
     for r in refs:
         yield {"driver": kind, "ops": [{"op": "open"}, {"op": "read", "i": 0, "v": 1}, {"op": "gconn"}, {"op": "close"}, {"op": "open"}, {"op": "write", "i": 0, "v": 5}],
                "policy": {"fo": "std", "fo_refuse": r}, "chunks": [1 << 20], "rot": 0, "stride": 1, "phase": 0, "entropy": "os"}
